@@ -156,7 +156,15 @@ func fillValue(r *RNG, v reflect.Value, tag string, required bool) {
 		if isOptional(tag) && b[0]|b[1]|b[2]|b[3] == 0 {
 			b[1] = 0x40
 		}
-		v.Set(reflect.ValueOf(asn1.BitString{Bytes: b, BitLength: 32}))
+		// KerberosFlags ::= BIT STRING (SIZE (32..MAX)): now and then more than 32 bits
+		switch r.Intn(6) {
+		case 0:
+			b = append(b, r.Bytes(1+r.Intn(2))...)
+			if b[len(b)-1] == 0 {
+				b[len(b)-1] = 0x80
+			}
+		}
+		v.Set(reflect.ValueOf(asn1.BitString{Bytes: b, BitLength: 8 * len(b)}))
 		return
 	case t == tOID:
 		oids := []asn1.ObjectIdentifier{{1, 2, 840, 113554, 1, 2, 2}, {1, 2, 840, 48018, 1, 2, 2}, {1, 3, 6, 1, 5, 5, 2}, {1, 3, 6, 1, 4, 1, 311, 2, 2, 10}}
